@@ -58,10 +58,12 @@ def build_pair(rng, max_len=10, controls=0.0):
     s = rand_text(rng, max_len, controls)
     base = rand_style(rng) if rng.random() < 0.4 else None
     tab = rng.choice([8, 8, 8, 8, 4, 2, 3, 1])
-    t = Text(s, style=real_style(rng, base)) if tab == 8 and rng.random() < 0.7 else \
-        Text(s, style=real_style(rng, base), tab_size=tab)
+    own_overflow = rng.choice([None, None, None, "fold", "crop", "ellipsis", "ignore"])
+    t = Text(s, style=real_style(rng, base)) if tab == 8 and own_overflow is None and rng.random() < 0.7 else \
+        Text(s, style=real_style(rng, base), tab_size=tab, overflow=own_overflow)
     m = M.TM.from_str(s, base)
     m.tab = tab
+    m.overflow = own_overflow
     applied = []
     # a small palette of styles re-used within the case, and span ends aligned with earlier spans:
     # equal-valued spans (and pieces of spans that become equal-valued after a split) expose
@@ -241,7 +243,7 @@ def step(ctx, rng, t, m, log):
         pieces = others[:pos] + [(t, m)] + others[pos:]
         log.append([op, sep_m.plain, [p[1].plain for p in pieces]])
         t = sep_t.join(_as_iterable(rng, [p[0] for p in pieces], log))
-        newm = M.TM([], sep_m.base, sep_m.tab)
+        newm = M.TM([], sep_m.base, sep_m.tab, sep_m.overflow)
         for k, (_, pm) in enumerate(pieces):
             if k and sep_m.plain:
                 newm.append_tm(sep_m)
@@ -308,13 +310,13 @@ def step(ctx, rng, t, m, log):
             ctx.violation("index-out-of-range-accepted", {"log": log})
             return t, m, op, False
         t = t[i]
-        m = M.TM([m.chars[i]], m.base, m.tab)
+        m = M.TM([m.chars[i]], m.base, m.tab, m.overflow)
     elif op == "slice":
         a = rng.choice([None, rng.randint(-n - 2, n + 2)])
         b = rng.choice([None, rng.randint(-n - 2, n + 2)])
         log.append([op, a, b])
         t = t[a:b]
-        m = M.TM(m.chars[slice(a, b)], m.base, m.tab)
+        m = M.TM(m.chars[slice(a, b)], m.base, m.tab, m.overflow)
     elif op in ("pad", "pad_left", "pad_right"):
         count = rng.choice([0, 1, 2, 5])
         ch = rng.choice([" ", " ", "-", "漢", rng.choice(M.STRIP)])
@@ -331,9 +333,11 @@ def step(ctx, rng, t, m, log):
         width = rng.randint(0, max(3, m.cells() + 4))
         ch = rng.choice([" ", "*"])
         log.append([op, how, width, ch])
-        t.overflow = None
+        # (align cuts a text that is too long with the text's OWN overflow method)
+        if (m.overflow == "ellipsis") and width == 0:
+            width = 1
         t.align(how, width, ch)
-        m.truncate(width, "fold")
+        m.truncate(width, m.overflow or "fold")
         excess = width - m.cells()
         if excess > 0:
             if how == "left":
@@ -347,9 +351,15 @@ def step(ctx, rng, t, m, log):
         overflow = rng.choice(["fold", "crop", "ellipsis", "ignore"])
         width = rng.randint(1 if overflow == "ellipsis" else 0, max(3, m.cells() + 3))
         pad = rng.random() < 0.4
-        log.append([op, width, overflow, pad])
-        t.truncate(width, overflow=overflow, pad=pad)
-        m.truncate(width, overflow, pad)
+        if rng.random() < 0.35 and not (m.overflow == "ellipsis" and width == 0):
+            # without an overflow argument: the text's own method (the one it was built with or inherited)
+            log.append([op, width, "(own: %s)" % m.overflow, pad])
+            t.truncate(width, pad=pad)
+            m.truncate(width, m.overflow or "fold", pad)
+        else:
+            log.append([op, width, overflow, pad])
+            t.truncate(width, overflow=overflow, pad=pad)
+            m.truncate(width, overflow, pad)
     elif op == "right_crop":
         amount = rng.choice([0, 1, 1, 2, n, n + 1, n + 3, rng.randint(0, n + 1), -1, -n - 2])
         log.append([op, amount])
@@ -545,7 +555,7 @@ def wl_histories(ctx, rng, case_no):
                 ctx.case_done(("h", repr(probe.spans), m.plain), False)
                 return
         shared = list(t.spans)
-        t = Text(m.plain, style=t.style, spans=shared, tab_size=m.tab)
+        t = Text(m.plain, style=t.style, spans=shared, tab_size=m.tab, overflow=m.overflow)
         sibling = (Text("sibling text!", spans=shared), [Span(s.start, s.end, s.style) for s in shared])
     log = [["construct", m.plain, repr(t.spans), str(t.style)] + (["spans-list-shared-with-a-second-Text"] if sibling else [])]
     if not compare(ctx, t, m, log, "construct"):
@@ -600,6 +610,9 @@ def wl_histories(ctx, rng, case_no):
     if unobserved and ok and t is not None and done:
         ctx.count("mon.unobserved_history_end")
         compare(ctx, t, m, log, "a-history-nobody-looked-at")
+    if m is None:           # (a violation inside a Lines-producing step ended the history)
+        ctx.case_done(("h", repr(log)), False)
+        return
     layered = any(l for _, l in m.chars if l) or m.base is not None
     ctx.hist("history_len", done)
     ctx.case_done(("h", repr(log)), done >= 3 and layered, {"log": log, "final_plain": m.plain})
